@@ -8,6 +8,7 @@ import Driver.Detect
 import Driver.Info
 import Driver.Signal
 import Driver.FlacC
+import Driver.OpenFile
 open Driver
 
 def dispatch (line : String) : String :=
@@ -24,6 +25,7 @@ def dispatch (line : String) : String :=
     | "mpeg" => mpegOp a
     | "sig" => sigOp a
     | "flacc" => flaccOp a
+    | "open" => openOp a
     | "flacinfo" => flacInfoOp a
     | "ping" => "pong"
     | _ => "bad-op"
